@@ -200,6 +200,9 @@ class Engine:
                 ax.append(self.exc_sub(z3.IntVal(ia), z3.IntVal(ib)) == z3.BoolVal(issubclass(a, b)))
                 if a is not b and issubclass(a, b):
                     ax.append(z3.ForAll([c], z3.Implies(self.exc_sub(c, z3.IntVal(ia)), self.exc_sub(c, z3.IntVal(ib)))))
+                if ia < ib and not issubclass(a, b) and not issubclass(b, a):
+                    # assumption: no exception class inherits from two unrelated classes mentioned in the code/contracts
+                    ax.append(z3.ForAll([c], z3.Not(z3.And(self.exc_sub(c, z3.IntVal(ia)), self.exc_sub(c, z3.IntVal(ib))))))
         # record-class hierarchy for isinstance on Ref values
         citems = list(self.cls_ids.items())
         for a, ia in citems:
@@ -359,6 +362,8 @@ class Engine:
             return self.coerce(SVal(dt.get(v.t), v.ty.inner), ty, st)
         if ty is OPAQUE:
             return self.box(v)
+        if ty is BOOL:
+            return SVal(self.truthy(v, st), BOOL)
         if v.ty is OPAQUE:
             return self.unbox(v, ty)
         if ty is INT and v.ty is BOOL:
@@ -845,8 +850,10 @@ class Engine:
             # short-circuit context is irrelevant for total (spec) evaluation; values are merged with ITE
             for e in node.values:
                 vals.append(self.ev1p(e, st))
-            if all(isinstance(v, SVal) and v.ty is BOOL for v in vals):
-                yield st, SVal(z3.And([v.t for v in vals]) if is_and else z3.Or([v.t for v in vals]), BOOL)
+            if any(isinstance(v, SVal) and v.ty is BOOL for v in vals):
+                # logical use (at least one operand is a bool): the value is the truthiness
+                ts = [self.truthy(v, st) for v in vals]
+                yield st, SVal(z3.And(ts) if is_and else z3.Or(ts), BOOL)
                 return
             res = vals[-1]
             for v in reversed(vals[:-1]):
@@ -1119,12 +1126,15 @@ class Engine:
             if type(o).__name__ == "SuperProxy":
                 yield st, BoundM(base, attr)
                 return
+            if inspect.ismodule(o) and f"{o.__name__}.{attr}" in getattr(self.reg, "opaque_globals", ()):
+                yield st, SVal(z3.Const(f"py!{o.__name__}.{attr}", self.U.U), OPAQUE)
+                return
             try:
                 yield st, PyObj(getattr(o, attr))
             except AttributeError:
                 raise OutsideSubset(f"attribute {attr} of {o!r}")
             return
-        if isinstance(base, (STuple, Empty, Closure)):
+        if isinstance(base, (STuple, Empty, Closure)) or type(base).__name__ == "FileHandle":
             yield st, BoundM(base, attr)
             return
         if isinstance(base, SVal) and (isinstance(base.ty, TOpt) or base.ty is NONE):
@@ -1154,7 +1164,13 @@ class Engine:
                 if raw is not None:
                     fn, kind, dropped = locate.unwrap(raw)
                     if kind == "property":
-                        yield from self.call_repo(fn, f"{k.__module__}.{k.__qualname__}.{attr}", [base], {}, st, dropped, node)
+                        pqn = f"{k.__module__}.{k.__qualname__}.{attr}"
+                        pc_ = self.reg.contracts.get(pqn)
+                        if pc_ is not None and not pc_.inline:
+                            from .calls import apply_contract
+                            yield from apply_contract(self, pc_, fn, [base], {}, st, node)
+                        else:
+                            yield from self.call_repo(fn, pqn, [base], {}, st, dropped, node)
                         return
                     if callable(fn):
                         yield st, BoundM(base, attr, base.origin)
@@ -1174,7 +1190,7 @@ class Engine:
             return
         if ty is OPAQUE:
             decl = self.reg.opaque_attrs.get(attr)
-            if decl == "method" or (decl is None and attr in OPAQUE_METHODS):
+            if decl == "method" or f"opaque.{attr}" in self.reg.contracts or (decl is None and attr in OPAQUE_METHODS):
                 yield st, BoundM(base, attr)
                 return
             rty = self.U.parse(decl) if decl else OPAQUE
@@ -1220,6 +1236,10 @@ class Engine:
                     s2, b = self.unwrap(b, s2, "slice")
                     if s2 is None:
                         continue
+                if b.ty is OPAQUE:
+                    f = self.uf("slice_U", [self.U.U, z3.IntSort(), z3.IntSort()], self.U.U)
+                    yield s2, SVal(f(b.t, lo.t if lo is not None else z3.IntVal(0), hi.t if hi is not None else z3.IntVal(-1)), OPAQUE)
+                    continue
                 n = Q.Length(b.t)
 
                 def norm(x, dflt):
@@ -1233,6 +1253,10 @@ class Engine:
                 h = norm(hi, n)
                 clamp = lambda e: z3.If(e < 0, 0, z3.If(e > n, n, e))
                 l, h = clamp(l), clamp(h)
+                if b.ty is OPAQUE:
+                    f = self.uf("slice_U", [self.U.U, z3.IntSort(), z3.IntSort()], self.U.U)
+                    yield s2, SVal(f(b.t, lo.t if lo is not None else z3.IntVal(0), hi.t if hi is not None else z3.IntVal(-1)), OPAQUE)
+                    continue
                 if isinstance(b.ty, TList) or b.ty is STR:
                     yield s2, SVal(z3.simplify(Q.Extract(b.t, l, z3.If(h - l < 0, 0, h - l))), b.ty)
                 else:
@@ -1411,7 +1435,7 @@ def _spec_implies(a, b):
     raise RuntimeError
 
 
-SPEC_BUILTINS = {"implies": "implies", "old": "old", "ANY": "ANY", "store": "store", "fresh_obj": "fresh_obj",
+SPEC_BUILTINS = {"raised_by": "raised_by", "exc_code": "exc_code", "implies": "implies", "old": "old", "ANY": "ANY", "store": "store", "fresh_obj": "fresh_obj",
                  "raised": "raised", "iff": "iff", "unchanged": "unchanged", "ite": "ite", "seq_index_of": "seq_index_of",
                  "distinct": "distinct", "field_unchanged_except": "field_unchanged_except", "none": "none",
                  "some": "some", "typed_empty": "typed_empty", "dom": "dom", "lookup": "lookup", "sorted_of": "sorted_of",
